@@ -1,0 +1,204 @@
+//go:build verif
+
+package types
+
+// Contracts for the deductive checker in /verif (comment-only; compiled only with -tags verif).
+// Ghost functions T, Sum, Ended, Count over sdkvesting.Periods are declared in /verif/specs/lib/50_vesting.spec.
+
+/*@
+func Min64
+    inline
+func Max64
+    inline
+
+// ------------------------------------------------------------------ lemmas about schedules
+
+// lengths are non-negative => event times are non-decreasing
+lemma TMono(start int, p Periods, i int, j int)
+    requires forall k int :: 0 <= k && k < len(p) ==> p[k].Length >= 0
+    requires 0 <= i && i <= j && j <= len(p)
+    ensures T(start, p, i) <= T(start, p, j)
+    induction j above i
+
+// nothing after event i+1 has ended if event i+1 has not
+lemma EndedFrozen(start int, p Periods, i int, j int, t int)
+    requires forall k int :: 0 <= k && k < len(p) ==> p[k].Length >= 0
+    requires 0 <= i && i < j && j <= len(p) && t < T(start, p, i+1)
+    ensures Ended(start, p, j, t) == Ended(start, p, i, t) && Count(start, p, j, t) == Count(start, p, i, t)
+    use TMono(start, p, i+1, j)
+    induction j above i+1
+
+// everything up to event i has ended once event i has
+lemma EndedAll(start int, p Periods, i int, t int)
+    requires forall k int :: 0 <= k && k < len(p) ==> p[k].Length >= 0
+    requires 0 <= i && i <= len(p) && T(start, p, i) <= t
+    ensures Ended(start, p, i, t) == Sum(p, i) && Count(start, p, i, t) == i
+    use TMono(start, p, i-1, i)
+    induction i above 0
+
+// ghost functions only read the first i periods
+lemma SchedFrame(start int, p Periods, q Periods, i int, t int)
+    requires forall k int :: 0 <= k && k < i ==> p[k] == q[k]
+    ensures T(start, p, i) == T(start, q, i) && Sum(p, i) == Sum(q, i)
+    ensures Ended(start, p, i, t) == Ended(start, q, i, t) && Count(start, p, i, t) == Count(start, q, i, t)
+    induction i above 0
+
+// with non-negative amounts the released amount lies between zero and the prefix total
+lemma EndedBounds(start int, p Periods, i int, t int)
+    requires forall k int :: 0 <= k && k < len(p) ==> cnonneg(p[k].Amount)
+    requires 0 <= i && i <= len(p)
+    ensures cnonneg(Ended(start, p, i, t)) && clte(Ended(start, p, i, t), Sum(p, i)) && cnonneg(Sum(p, i))
+    induction i above 0
+
+// ------------------------------------------------------------------ C09: reading a schedule
+func ReadSchedule
+    requires lens: forall k int :: 0 <= k && k < len(periods) ==> periods[k].Length >= 0
+    requires end: endTime >= T(startTime, periods, len(periods))
+    requires total: totalCoins == Sum(periods, len(periods))
+    ensures read: result == ite(readTime <= startTime, coins_zero(), Ended(startTime, periods, len(periods), readTime))
+    loop 1 invariant idx: 0 <= #i && #i <= len(periods)
+    loop 1 invariant coins: coins == Ended(startTime, periods, #i, readTime)
+    loop 1 invariant time: elapsedTime == T(startTime, periods, #i) && elapsedTime <= readTime
+    loop 1 invariant frame: periods == old(periods) && startTime == old(startTime) && readTime == old(readTime)
+    loop 1 exit use EndedFrozen(startTime, periods, #i, len(periods), readTime)
+    use return EndedAll(startTime, periods, len(periods), readTime)
+
+func ReadPastPeriodCount
+    requires lens: forall k int :: 0 <= k && k < len(periods) ==> periods[k].Length >= 0
+    requires end: endTime >= T(startTime, periods, len(periods))
+    ensures count: result == ite(readTime <= startTime, 0, Count(startTime, periods, len(periods), readTime))
+    ensures range: 0 <= result && result <= len(periods)
+    loop 1 invariant idx: 0 <= #i && #i <= len(periods)
+    loop 1 invariant count: passedPeriods == Count(startTime, periods, #i, readTime) && passedPeriods == #i
+    loop 1 invariant time: elapsedTime == T(startTime, periods, #i) && elapsedTime <= readTime
+    loop 1 invariant frame: periods == old(periods) && startTime == old(startTime) && readTime == old(readTime)
+    loop 1 exit use EndedFrozen(startTime, periods, #i, len(periods), readTime)
+    use return EndedAll(startTime, periods, len(periods), readTime)
+
+// ------------------------------------------------------------------ C09: union of two schedules
+// For an arbitrary instant t (ghost), the merged schedule has released exactly what A and B together
+// have released: the output's release events are the union of the inputs' events at their absolute times.
+func DisjunctPeriods
+    ghostvar t int
+    requires lensA: forall k int :: 0 <= k && k < len(periodsA) ==> periodsA[k].Length >= 0
+    requires lensB: forall k int :: 0 <= k && k < len(periodsB) ==> periodsB[k].Length >= 0
+    ensures start: result.0 == imin(startTimePeriodsA, startTimePeriodsB)
+    ensures end: result.1 == T(result.0, result.2, len(result.2))
+    ensures union: Ended(result.0, result.2, len(result.2), t)
+            == cadd(Ended(startTimePeriodsA, periodsA, len(periodsA), t), Ended(startTimePeriodsB, periodsB, len(periodsB), t))
+    ensures total: Sum(result.2, len(result.2)) == cadd(Sum(periodsA, len(periodsA)), Sum(periodsB, len(periodsB)))
+    ensures lens: forall k int :: 0 <= k && k < len(result.2) ==> result.2[k].Length >= 0
+    ensures count: len(result.2) <= len(periodsA) + len(periodsB)
+    loop 1,2,3 invariant idx: 0 <= idxPeriodsA && idxPeriodsA <= lenPeriodsA && 0 <= idxPeriodsB && idxPeriodsB <= lenPeriodsB
+            && lenPeriodsA == len(periodsA) && lenPeriodsB == len(periodsB) && len(periods) >= 0
+            && len(periods) <= idxPeriodsA + idxPeriodsB
+    loop 2,3 invariant exhausted: idxPeriodsA >= lenPeriodsA || idxPeriodsB >= lenPeriodsB
+    loop 3 invariant exhaustedA: idxPeriodsA >= lenPeriodsA
+    loop 1,2,3 invariant times: timePeriodA == T(startTimePeriodsA, periodsA, idxPeriodsA)
+            && timePeriodsB == T(startTimePeriodsB, periodsB, idxPeriodsB)
+            && endTime == T(startTime, periods, len(periods))
+            && startTime == imin(startTimePeriodsA, startTimePeriodsB)
+    loop 1,2,3 invariant order: (idxPeriodsA < lenPeriodsA ==> endTime <= T(startTimePeriodsA, periodsA, idxPeriodsA + 1))
+            && (idxPeriodsB < lenPeriodsB ==> endTime <= T(startTimePeriodsB, periodsB, idxPeriodsB + 1))
+    loop 1,2,3 invariant union: Ended(startTime, periods, len(periods), t)
+            == cadd(Ended(startTimePeriodsA, periodsA, idxPeriodsA, t), Ended(startTimePeriodsB, periodsB, idxPeriodsB, t))
+    loop 1,2,3 invariant total: Sum(periods, len(periods)) == cadd(Sum(periodsA, idxPeriodsA), Sum(periodsB, idxPeriodsB))
+    loop 1,2,3 invariant lens: forall k int :: 0 <= k && k < len(periods) ==> periods[k].Length >= 0
+    loop 1,2,3 back use SchedFrame(startTime, head(periods), periods, len(head(periods)), t)
+
+// ------------------------------------------------------------------ C09: pointwise minimum (cap) of two schedules
+func ConjunctPeriods
+    ghostvar t int
+    let sA = startTimePeriodA
+    let sB = startTimePeriodB
+    let nA = T(startTimePeriodA, periodsA, idxPeriodsA + 1)
+    let nB = T(startTimePeriodB, periodsB, idxPeriodsB + 1)
+    let out = conjunctionPeriods
+    let n = len(conjunctionPeriods)
+    requires lensA: forall k int :: 0 <= k && k < len(periodsA) ==> periodsA[k].Length >= 0 && cnonneg(periodsA[k].Amount)
+    requires lensB: forall k int :: 0 <= k && k < len(periodsB) ==> periodsB[k].Length >= 0 && cnonneg(periodsB[k].Amount)
+    ensures start: result.0 == imin(startTimePeriodA, startTimePeriodB)
+    ensures end: result.1 == T(result.0, result.2, len(result.2))
+    ensures min: Ended(result.0, result.2, len(result.2), t)
+            == cmin(Ended(startTimePeriodA, periodsA, len(periodsA), t), Ended(startTimePeriodB, periodsB, len(periodsB), t))
+    ensures total: Sum(result.2, len(result.2)) == cmin(Sum(periodsA, len(periodsA)), Sum(periodsB, len(periodsB)))
+    ensures lens: forall k int :: 0 <= k && k < len(result.2) ==> result.2[k].Length >= 0
+    ensures count: len(result.2) <= len(periodsA) + len(periodsB)
+    loop 1,2,3 invariant idx: 0 <= idxPeriodsA && idxPeriodsA <= lenPeriodsA && 0 <= idxPeriodsB && idxPeriodsB <= lenPeriodsB
+            && lenPeriodsA == len(periodsA) && lenPeriodsB == len(periodsB) && n >= 0 && n <= idxPeriodsA + idxPeriodsB
+    loop 2,3 invariant exhausted: idxPeriodsA >= lenPeriodsA || idxPeriodsB >= lenPeriodsB
+    loop 3 invariant exhaustedA: idxPeriodsA >= lenPeriodsA
+    loop 1,2,3 invariant times: timePeriodsA == T(sA, periodsA, idxPeriodsA) && timePeriodsB == T(sB, periodsB, idxPeriodsB)
+            && endTimeOfLastProcessedPeriod == T(startTime, out, n) && startTime == imin(sA, sB)
+    loop 1,2,3 invariant totals: totalAmountPeriodsA == Sum(periodsA, idxPeriodsA) && totalAmountPeriodsB == Sum(periodsB, idxPeriodsB)
+            && resultingAmount == cmin(totalAmountPeriodsA, totalAmountPeriodsB) && resultingAmount == Sum(out, n)
+            && cnonneg(totalAmountPeriodsA) && cnonneg(totalAmountPeriodsB)
+    loop 1,2,3 invariant order: (idxPeriodsA < lenPeriodsA ==> T(startTime, out, n) <= nA && (idxPeriodsB > 0 ==> timePeriodsB <= nA))
+            && (idxPeriodsB < lenPeriodsB ==> T(startTime, out, n) <= nB && (idxPeriodsA > 0 ==> timePeriodsA <= nB))
+    loop 1,2,3 invariant min: Ended(startTime, out, n, t) == cmin(Ended(sA, periodsA, idxPeriodsA, t), Ended(sB, periodsB, idxPeriodsB, t))
+    loop 1,2,3 invariant lens: forall k int :: 0 <= k && k < n ==> out[k].Length >= 0
+    loop 1,2,3 back use SchedFrame(startTime, head(conjunctionPeriods), conjunctionPeriods, len(head(conjunctionPeriods)), t)
+    loop 1,2,3 back use EndedAll(startTime, head(conjunctionPeriods), len(head(conjunctionPeriods)), t)
+    loop 1,2,3 back use EndedAll(sA, periodsA, head(idxPeriodsA), t)
+    loop 1,2,3 back use EndedAll(sB, periodsB, head(idxPeriodsB), t)
+
+// ------------------------------------------------------------------ C08/C09: the clawback vesting account
+alias CVA github.com/haqq-network/haqq/x/vesting/types.ClawbackVestingAccount
+
+// representation invariant of a stored account (what Validate() checks, minus start < end)
+specfunc ValidCVA(va CVA) bool =
+       (forall k int :: 0 <= k && k < len(va.LockupPeriods) ==> va.LockupPeriods[k].Length >= 0 && cnonneg(va.LockupPeriods[k].Amount))
+    && (forall k int :: 0 <= k && k < len(va.VestingPeriods) ==> va.VestingPeriods[k].Length >= 0 && cnonneg(va.VestingPeriods[k].Amount))
+    && T(time_unix(va.StartTime), va.LockupPeriods, len(va.LockupPeriods)) <= va.EndTime
+    && T(time_unix(va.StartTime), va.VestingPeriods, len(va.VestingPeriods)) <= va.EndTime
+    && Sum(va.LockupPeriods, len(va.LockupPeriods)) == va.OriginalVesting
+    && Sum(va.VestingPeriods, len(va.VestingPeriods)) == va.OriginalVesting
+    && va.BaseVestingAccount != nil
+specfunc VestedAt(va CVA, t int) Coins = Read(time_unix(va.StartTime), va.VestingPeriods, t)
+specfunc UnlockedAt(va CVA, t int) Coins = Read(time_unix(va.StartTime), va.LockupPeriods, t)
+
+func (ClawbackVestingAccount).GetStartTime
+    inline
+
+func (ClawbackVestingAccount).GetVestedCoins
+    requires valid: ValidCVA(va)
+    ensures read: result == VestedAt(va, time_unix(blockTime))
+    ensures bounds: cnonneg(result) && clte(result, va.OriginalVesting)
+    use return EndedBounds(time_unix(va.StartTime), va.VestingPeriods, len(va.VestingPeriods), time_unix(blockTime))
+
+func (ClawbackVestingAccount).GetUnlockedCoins
+    requires valid: ValidCVA(va)
+    ensures read: result == UnlockedAt(va, time_unix(blockTime))
+    ensures bounds: cnonneg(result) && clte(result, va.OriginalVesting)
+    use return EndedBounds(time_unix(va.StartTime), va.LockupPeriods, len(va.LockupPeriods), time_unix(blockTime))
+
+func (ClawbackVestingAccount).GetVestingCoins
+    requires valid: ValidCVA(va)
+    ensures unvested: result == csub(va.OriginalVesting, VestedAt(va, time_unix(blockTime))) && cnonneg(result)
+
+func (ClawbackVestingAccount).GetLockedUpCoins
+    requires valid: ValidCVA(va)
+    ensures locked: result == csub(va.OriginalVesting, UnlockedAt(va, time_unix(blockTime))) && cnonneg(result)
+
+func (ClawbackVestingAccount).GetUnlockedVestedCoins
+    requires valid: ValidCVA(va)
+    ensures uv: result == cmin(UnlockedAt(va, time_unix(blockTime)), VestedAt(va, time_unix(blockTime)))
+
+func (ClawbackVestingAccount).GetLockedUpVestedCoins
+    requires valid: ValidCVA(va)
+    ensures lv: result == csub(VestedAt(va, time_unix(blockTime)), cmin(UnlockedAt(va, time_unix(blockTime)), VestedAt(va, time_unix(blockTime))))
+    ensures nonneg: cnonneg(result)
+
+// C08: locked = max(original - unlockedVested - trackedDelegated, unvested), between 0 and original
+func (ClawbackVestingAccount).LockedCoins
+    let t = time_unix(blockTime)
+    let O = va.OriginalVesting
+    let UV = cmin(UnlockedAt(va, t), VestedAt(va, t))
+    let D = cadd(va.DelegatedFree, va.DelegatedVesting)
+    requires valid: ValidCVA(va)
+    requires delegated: cnonneg(va.DelegatedFree) && cnonneg(va.DelegatedVesting)
+    ensures formula: result == cmax(csub(csub(O, UV), D), csub(O, VestedAt(va, t)))
+    ensures bounds: cnonneg(result) && clte(result, O)
+    use entry EndedBounds(time_unix(va.StartTime), va.VestingPeriods, len(va.VestingPeriods), time_unix(blockTime))
+    use entry EndedBounds(time_unix(va.StartTime), va.LockupPeriods, len(va.LockupPeriods), time_unix(blockTime))
+@*/
